@@ -550,7 +550,8 @@ func wasmSrc(wat string) []byte {
 // SamplingParamChurn: governance proposals that change the oracle's sampling_try_count, including the invalid value 0 (which
 // parameter validation has to refuse: with zero tries no committee can be drawn).
 type SamplingParamChurn struct {
-	Rate int
+	Rate   int
+	Expiry bool // also move expiration_block_count
 }
 
 func (p *SamplingParamChurn) OnBlock(e *Env, blk *world.BlockRecord) {}
@@ -571,6 +572,14 @@ func (p *SamplingParamChurn) Act(e *Env) {
 		np.SamplingTryCount = 1 << 63 // beyond the int range the sampler converts to
 	case 9:
 		np.SamplingTryCount = 1<<64 - 1
+	}
+	if p.Expiry && e.Ch.Bool("oracle.churn.expiry", 500) {
+		// the expiration window moves while requests are in flight (shorter: some are overdue at once; longer: they live on)
+		np = e.App().OracleKeeper.GetParams(e.Ctx())
+		np.ExpirationBlockCount = uint64(1 + e.Ch.Intn("oracle.churn.expiry.n", 12))
+		e.St.Fault("expiration_block_count_changed_by_governance")
+		gov.Propose(e, "params_oracle", nil, &oracletypes.MsgUpdateParams{Authority: govAuthority, Params: np})
+		return
 	}
 	if np.Validate() != nil {
 		e.St.Fault("proposal_with_invalid_sampling_try_count")
